@@ -32,14 +32,15 @@ theorem range_deref_safe (ticks : List α) (hs : Sorted ticks) (hne : ticks ≠ 
   grind
 
 /-- sampled dimension: for every interval/offset whose coordinates `i*interval+offset` are strictly
-    increasing, every position below coordinate number `fuel`, and *any* value of the rounded quotient -/
+    increasing, every position below coordinate number `fuel` whose rounded quotient is below 2^53 (the library answers `none`
+    beyond: fix df344c6), and *any* value of that quotient -/
 theorem sampled_index_spec (fuel : Nat) (p off si : α) (m : PositionMatch)
     (hx : StrictMonoN (posAt si off)) (hx0 : posAt si off 0 = off)
     (hsi : zero < si) (hfp : isFinite p = true) (hfo : isFinite off = true)
-    (hfuel : p < posAt si off fuel) :
+    (hfuel : p < posAt si off fuel) (hq : floor (div (sub p off) si) < ofNat 9007199254740992) :
     IsIndex (sampledAxis si off) m p (getSampledIndex fuel p off si m) :=
   relIndex_sound _ (sampledAxis_strictMono si off hx) m p _ _
-    (sampled_rel fuel p off si m hx hx0 hsi hfp hfo hfuel)
+    (sampled_rel fuel p off si m hx hx0 hsi hfp hfo hfuel hq)
 
 /-- set and data-frame dimensions: integer coordinates clipped by the label / row count -/
 theorem count_index_spec [LawfulRounding α] (p : α) (count : Nat) (m : PositionMatch) :
@@ -62,7 +63,8 @@ theorem index_roundtrip (a : Axis α) (hm : a.StrictMono) (i : Nat) (hi : a.vali
 /-- … and therefore the sampled kernel maps `positionAt(i)` to `i`, `i`, `i`, `i-1`, `i+1` -/
 theorem sampled_roundtrip (fuel : Nat) (off si : α) (i : Nat)
     (hx : StrictMonoN (posAt si off)) (hx0 : posAt si off 0 = off)
-    (hsi : zero < si) (hfp : isFinite (posAt si off i) = true) (hfo : isFinite off = true) (hfuel : i < fuel) :
+    (hsi : zero < si) (hfp : isFinite (posAt si off i) = true) (hfo : isFinite off = true) (hfuel : i < fuel)
+    (hq : floor (div (sub (posAt si off i) off) si) < ofNat 9007199254740992) :
     getSampledIndex fuel (posAt si off i) off si .greaterOrEqual = some i ∧
     getSampledIndex fuel (posAt si off i) off si .lessOrEqual = some i ∧
     getSampledIndex fuel (posAt si off i) off si .equal = some i ∧
@@ -71,7 +73,7 @@ theorem sampled_roundtrip (fuel : Nat) (off si : α) (i : Nat)
   have hm := sampledAxis_strictMono si off hx
   have hv := sampledAxis_valid si off
   have hrt := coord_roundtrip (sampledAxis si off) hm i (hv i)
-  have hk := fun m => sampled_index_spec fuel (posAt si off i) off si m hx hx0 hsi hfp hfo (hx i fuel hfuel)
+  have hk := fun m => sampled_index_spec fuel (posAt si off i) off si m hx hx0 hsi hfp hfo (hx i fuel hfuel) hq
   have hu := fun m r r' => IsIndex_unique (sampledAxis si off) hm m (posAt si off i) r r'
   refine ⟨hu _ _ _ (hk _) hrt.1, hu _ _ _ (hk _) hrt.2.1, hu _ _ _ (hk _) hrt.2.2.1, hu _ _ _ (hk _) hrt.2.2.2.1, ?_⟩
   have := hrt.2.2.2.2
@@ -92,11 +94,12 @@ theorem count_pair_spec [LawfulRounding α] (count : Nat) (s e : α) (rm : Range
 theorem sampled_pair_spec (fuel : Nat) (off si : α) (s e : α) (rm : RangeMatch)
     (hx : StrictMonoN (posAt si off)) (hx0 : posAt si off 0 = off)
     (hsi : zero < si) (hfs : isFinite s = true) (hfe : isFinite e = true) (hfo : isFinite off = true)
-    (hs : s < posAt si off fuel) (he : e < posAt si off fuel) :
+    (hs : s < posAt si off fuel) (he : e < posAt si off fuel)
+    (hqs : floor (div (sub s off) si) < ofNat 9007199254740992) (hqe : floor (div (sub e off) si) < ofNat 9007199254740992) :
     IsPair (sampledAxis si off) rm s e (sampledPair fuel off si s e rm) := by
   unfold sampledPair pairOf
-  have h1 := sampled_index_spec fuel s off si .greaterOrEqual hx hx0 hsi hfs hfo hs
-  have h2 := sampled_index_spec fuel e off si rm.endMatch hx hx0 hsi hfe hfo he
+  have h1 := sampled_index_spec fuel s off si .greaterOrEqual hx hx0 hsi hfs hfo hs hqs
+  have h2 := sampled_index_spec fuel e off si rm.endMatch hx hx0 hsi hfe hfo he hqe
   by_cases hes : e < s
   · simp [hes, IsPair]
   · simp only [hes, if_false]
